@@ -6,6 +6,9 @@ func init() {
 	registerProperty(&Property{ID: "C19", Rules: []string{"TB-FLAGS", "TB-DEFAULTS"},
 		Decided: "flag wiring and defaults.", NotDecided: "rate accounting."})
 	registerProperty(&Property{ID: "C04", Rules: []string{"TB-MEDIATYPE"}, Decided: "media type tables agree.", NotDecided: "-"})
-	registerProperty(&Property{ID: "C13", Rules: []string{"TB-DEEP"}, Decided: "deep copies.", NotDecided: "-"})
+	registerProperty(&Property{ID: "C13", Rules: []string{"LK-GUARD", "LK-COPY", "TB-DEEP"}, Decided: "deep copies.", NotDecided: "-"})
+	registerProperty(&Property{ID: "C12", Rules: []string{"LK-ORDER", "LK-SELF", "LK-PAIR", "LK-HOLD", "LK-TOKEN", "LK-FLAG"}, Decided: "lock order.", NotDecided: "-"})
+	registerProperty(&Property{ID: "C11", Rules: []string{"LK-ATOMIC", "LK-RMW", "LK-COPY", "TB-DEEP"}, Decided: "atomicity.", NotDecided: "-"})
+	registerProperty(&Property{ID: "C08", Rules: []string{"LK-CTA"}, Decided: "cta.", NotDecided: "-"})
 	registerProperty(&Property{ID: "C16", Rules: []string{"TB-RESERVED"}, Decided: "reserved names.", NotDecided: "-"})
 }
